@@ -163,6 +163,39 @@ type Program struct {
 	pdmu    sync.Mutex
 }
 
+var forkSites = map[string]int{}
+var forkMu sync.Mutex
+
+func (p *Program) noteFork(site string) {
+	if os.Getenv("SYMGO_FORKSTAT") == "" {
+		return
+	}
+	forkMu.Lock()
+	forkSites[site]++
+	forkMu.Unlock()
+}
+
+func dumpForkSites() {
+	if os.Getenv("SYMGO_FORKSTAT") == "" {
+		return
+	}
+	type kv struct {
+		k string
+		v int
+	}
+	var l []kv
+	for k, v := range forkSites {
+		l = append(l, kv{k, v})
+	}
+	sort.Slice(l, func(i, j int) bool { return l[i].v > l[j].v })
+	for i, e := range l {
+		if i >= 25 {
+			break
+		}
+		fmt.Fprintf(os.Stderr, "   fork site %6d  %s\n", e.v, e.k)
+	}
+}
+
 func (p *Program) push(prefix []uint64) {
 	p.mu.Lock()
 	p.work = append(p.work, prefix)
@@ -311,6 +344,9 @@ func loadProgram(repo, hdir string, cc *CheckCfg) (*Program, error) {
 
 // opaqueMethod returns handlers for methods of the executor's own fake types.
 func (p *Program) opaqueMethod(t types.Type, name string) intrinsic {
+	if hashNamed != nil && t == types.Type(hashNamed) {
+		return hashMethod(name)
+	}
 	if t == p.runtimeErrType {
 		switch name {
 		case "Error":
@@ -340,6 +376,14 @@ func (p *Program) opaqueMethod(t types.Type, name string) intrinsic {
 }
 
 func (p *Program) opaqueImplements(t types.Type, it *types.Interface) bool {
+	if hashNamed != nil && t == types.Type(hashNamed) {
+		for i := 0; i < it.NumMethods(); i++ {
+			if hashMethod(it.Method(i).Name()) == nil {
+				return false
+			}
+		}
+		return true
+	}
 	if t == p.runtimeErrType || t == types.Type(p.opaqueErrType) {
 		// error, and (for opaque errors) interface{ Unwrap() error }
 		for i := 0; i < it.NumMethods(); i++ {
